@@ -305,7 +305,15 @@ def vdims_strategy(draw, nvdim, default_ok=True):
         return None
     pool = draw(st.sampled_from(VDIM_POOLS))
     perm = draw(st.permutations(range(4)))
+    if nvdim > 4:
+        # many-component fields (tensors, time series of components): the pool labels with a running number
+        return [f"{pool[perm[i % 4]]}_{i // 4}" for i in range(nvdim)]
     return [pool[i] for i in perm[:nvdim]]
+
+
+def nvdim_strategy():
+    """1-4 components mostly, now and then a many-component field"""
+    return st.sampled_from([1, 1, 2, 2, 3, 3, 3, 4, 4, 5, 6, 9])
 
 
 def default_vdims(nvdim):
